@@ -346,6 +346,90 @@ class BMag(Interp):
             self.outputs.append('ret')
 
 
+class FrenetPoint(Interp):
+    """Frenet_to_cylindrical_residual_func / Frenet_to_cylindrical_1_point: every spline evaluation `qsc.<name>(phi0)` is an oracle input
+    named `<name>@phi0`; np.arctan2(y, x) is recorded as the pair of bindings atan2_y, atan2_x and its value is the oracle input `atan2`."""
+    def __init__(self, *a, **k):
+        Interp.__init__(self, *a, **k)
+        self.self_names = ('qsc',)
+
+    def e_Call(self, e):
+        import ast
+        f = e.func
+        if isinstance(f, ast.Attribute) and isinstance(f.value, ast.Name) and f.value.id == 'qsc' and len(e.args) == 1 and ast.unparse(e.args[0]) == 'phi0':
+            nm = f.attr + '@phi0'
+            self.inputs[nm] = 's'
+            return var(nm, 's')
+        if ast.unparse(f) == 'np.arctan2':
+            y, x = [lift(self.expr(a)) for a in e.args]
+            self.emit('atan2_y', y); self.emit('atan2_x', x)
+            self.inputs['atan2'] = 's'
+            return var('atan2', 's')
+        return Interp.e_Call(self, e)
+
+    def finish(self):
+        r = self.returned
+        if isinstance(r, (tuple, list)):
+            for i, x in enumerate(r):
+                if isinstance(x, E):
+                    self.emit('s.ret%d' % i, x); self.outputs.append('ret%d' % i)
+        elif isinstance(r, E):
+            self.emit('s.ret', r); self.outputs.append('ret')
+
+
+class SurfaceSeries(Interp):
+    """Frenet_to_cylindrical / to_RZ: the assembly of X, Y, Z at one poloidal angle from the untwisted coefficients is translated
+    (loop over theta / over the points executed once for a symbolic angle); everything after the first spline construction is the
+    root-finding / interpolation layer handled by the harness."""
+    def for_loop(self, st):
+        import ast
+        it = ast.unparse(st.iter)
+        if it in ('range(ntheta)', 'points'):
+            if it == 'points':
+                self.locals[st.target.id] = [var('pt_r', 's'), var('pt_theta', 's'), var('pt_phi0', 's')]
+            else:
+                self.locals[st.target.id] = Opaque('theta-index')
+            for b in st.body:
+                if isinstance(b, ast.Assign) and ast.unparse(b.targets[0]) == 'self.X_spline':
+                    break
+                self.stmt(b)
+            self.returned = Opaque('stop-at-splines')
+            return
+        return Interp.for_loop(self, st)
+
+    def e_Subscript(self, e):
+        import ast
+        if ast.unparse(e) == 'theta[j_theta]':
+            self.inputs['theta'] = 's'
+            return var('theta', 's')
+        return Interp.e_Subscript(self, e)
+
+    def c_np_linspace(self, *a, **k):
+        return Opaque('grid')
+
+    def c_np_zeros(self, shape):
+        return Opaque('zeros2d')
+
+
+class VmecScalars(Interp):
+    """to_vmec: only the scalar physics (PHIEDGE, pressure coefficients, CURTOR) is modelled; resolution defaults, the call to
+    Frenet_to_cylindrical / to_Fourier and the text layer are validated by parsing the written file back (harness)."""
+    KEEP = ('phiedge', 'temp', 'am', 'curtor')
+
+    def stmt(self, st):
+        import ast
+        if isinstance(st, ast.Assign) and len(st.targets) == 1 and isinstance(st.targets[0], ast.Name) and st.targets[0].id in self.KEEP:
+            v = self.expr(st.value)
+            if isinstance(v, list):
+                for i, x in enumerate(v):
+                    self.emit('%s_%d' % (st.targets[0].id, i), lift(x))
+                self.locals[st.targets[0].id] = v
+                return
+            return Interp.stmt(self, st)
+        self.facts = getattr(self, 'facts', {})
+        self.facts.setdefault('not_modelled', []).append(ast.unparse(st)[:60])
+
+
 class Jac(Interp):
     """_jacobian: the returned matrix is  D/dvarphi + diag(d) with column 0 replaced by c.
     Emitted as the Jacobian-vector product  ret = J @ h  for a symbolic direction h."""
@@ -440,6 +524,16 @@ def programs(kinds):
         for bt in (False, True):
             d = dict(od); d['Boozer_toroidal == False'] = (not bt)
             P.append(('qsc/util.py', 'B_mag', '%s_%s' % (ordn, 'boozer' if bt else 'cyl'), d, dict(bm, Boozer_toroidal=bt), BMag))
+    ps = {'phi0': var('phi0', 's'), 'phi_target': var('phi_target', 's'), 'qsc': Struct('qsc')}
+    big = 'Frenet_to_cylindrical_residual > np.pi'; small = 'Frenet_to_cylindrical_residual < -np.pi'
+    for ordn, od in (('r1', {"qsc.order != 'r1'": False}), ('r2', {"qsc.order != 'r1'": True})):
+        P.append(('qsc/Frenet_to_cylindrical.py', 'Frenet_to_cylindrical_residual_func', ordn, dict(od, **{big: False, small: False}), dict(ps), FrenetPoint))
+        P.append(('qsc/Frenet_to_cylindrical.py', 'Frenet_to_cylindrical_1_point', ordn, dict(od), dict(ps), FrenetPoint))
+    for ordn, od in (('r1', {"self.order != 'r1'": False}), ('r2', {"self.order != 'r1'": True, "self.order == 'r3'": False}),
+                     ('r3', {"self.order != 'r1'": True, "self.order == 'r3'": True})):
+        P.append(('qsc/Frenet_to_cylindrical.py', 'Frenet_to_cylindrical', ordn, dict(od), {'r': var('r', 's'), 'ntheta': Opaque('ntheta')}, SurfaceSeries))
+        P.append(('qsc/Frenet_to_cylindrical.py', 'to_RZ', ordn, dict(od), {'points': Opaque('points')}, SurfaceSeries))
+    P.append(('qsc/to_vmec.py', 'to_vmec', 'scalars', {}, {'r': var('r', 's'), 'filename': 'f', 'params': Opaque('params'), 'ntheta': Opaque('n'), 'ntorMax': Opaque('n')}, VmecScalars))
     rt = {'r': var('r', 's'), 'theta': var('theta', 's')}
     P.append(('qsc/grad_B_tensor.py', 'Bfield_cylindrical', 'r', {'r == 0': False}, dict(rt), WithReturn))
     P.append(('qsc/grad_B_tensor.py', 'Bfield_cylindrical', 'r0', {'r == 0': True}, dict(rt), WithReturn))
@@ -523,6 +617,13 @@ def main():
         for pname, it in items:
             txt += coq_prog(pname, it.prog) + '\n'
         put(mod + '.v', txt)
+    # facts recognised in irregular code (source text of boolean expressions, loop bodies ...) as Coq strings, so that proofs can pin them
+    ftxt = '(* GENERATED by tools/gen.py -- source-text facts recognised by the translator *)\nFrom Coq Require Import String.\nOpen Scope string_scope.\n\n'
+    for pname, info in sorted(manifest['programs'].items()):
+        for k, v in sorted((info.get('facts') or {}).items()):
+            if isinstance(v, str):
+                ftxt += 'Definition fact_%s_%s : string := "%s".\n' % (pname, k, v.replace('"', '""'))
+    put('G_facts.v', ftxt)
     put('gen_manifest.json', json.dumps(manifest, indent=1))
     own = ('G_effects.v', 'G_obj.v', 'effects_manifest.json', 'obj_manifest.json')   # written by gen_eff.py / gen_obj.py
     for f in os.listdir(a.out):
